@@ -62,14 +62,22 @@ def document(kind):
         "Ind": obj({"a": INT, "mp": {"type": "object", "additionalProperties": INT}, "any": {"type": "object"},
                     "keyed": {"type": "object", "additionalProperties": INT, "propertyNames": {"type": "string", "pattern": "^[a-z]+$"}},
                     "cs": dict(CONV_SCHEMA, description="conversion schema inlined at a use site"),
-                    "cv": {"type": "array", "items": dict(CONV_SCHEMA, title="Titled")}}, ["a"]),
-        "IndEnum": {"oneOf": [obj({"A": INT}, ["A"]), {"type": "string", "enum": ["B"]}]},
+                    "cv": {"type": "array", "items": dict(CONV_SCHEMA, title="Titled")},
+                    # maps and conversion schemas in nested positions
+                    "vmaps": {"type": "array", "items": {"type": "object", "additionalProperties": INT}},
+                    "mmap": {"type": "object", "additionalProperties": {"type": "object", "additionalProperties": STR}},
+                    "omap": {"type": ["object", "null"], "additionalProperties": INT},
+                    "cm": {"type": "object", "additionalProperties": dict(CONV_SCHEMA)},
+                    "co": {"oneOf": [dict(CONV_SCHEMA), {"type": "null"}]}}, ["a"]),
+        "IndEnum": {"oneOf": [obj({"A": INT}, ["A"]), {"type": "string", "enum": ["B"]},
+                              obj({"M": {"type": "object", "additionalProperties": INT}}, ["M"]), obj({"C": dict(CONV_SCHEMA)}, ["C"]),
+                              obj({"S": obj({"sm": {"type": "object", "additionalProperties": INT}, "sc": dict(CONV_SCHEMA)}, ["sm", "sc"])}, ["S"])]},
         # named types that are NOT definitions: inline titled subschemas (patch targets of the patch_inline feature)
         "IndInline": obj({"mode": {"title": "InlineMode", "type": "string", "enum": ["x", "y"]},
                           "tags": {"type": "array", "items": {"title": "InlineLabel", "type": "string", "maxLength": 5}},
                           "deep": {"title": "InlineObj", "type": "object", "properties": {"k": INT}}}),
     }
-    for k in ("UExt",):
+    for k in ("UExt", "IndEnum"):
         for sub in defs[k]["oneOf"]:
             if sub.get("type") == "object":
                 sub["additionalProperties"] = False
@@ -215,12 +223,37 @@ def execute(cases_, tier, seed):
                         probs.append("%s.%s: type %s, expected %s" % (i, m, t, want))
             if "UAllOf" in items and not any(f["name"] == "marker_d" for f in items["UAllOf"]["body"]["fields"]):
                 probs.append("UAllOf lost the merged member marker_d (allOf members are merged structurally)")
+        conv_sites = {("Ind", "cs"): "::std::option::Option<{C}>", ("Ind", "cv"): "::std::vec::Vec<{C}>", ("Ind", "cm"): "{M}<::std::string::String,{C}>",
+                      ("Ind", "co"): "::std::option::Option<{C}>", ("IndEnum", "C.0"): "{C}", ("IndEnum", "S.sc"): "{C}"}
         if F & {"convert", "convert_annot"}:
-            ind = items.get("Ind")
-            for fname, want in (("cs", "::std::option::Option<%s>" % CONV), ("cv", "::std::vec::Vec<%s>" % CONV)):
-                f = next((f for f in (ind or {"body": {"fields": []}})["body"]["fields"] if f["name"] == fname), None)
-                if f is None or nrm(f["ty"]) != want:
-                    probs.append("Ind.%s: type %s, expected %s (subschema equal to the conversion schema modulo annotations)" % (fname, f and nrm(f["ty"]), want))
+            got = {(i, m): t for (i, m, t) in fts}
+            for (i, m), tmpl in conv_sites.items():
+                want = tmpl.replace("{C}", CONV).replace("{M}", mp)
+                if got.get((i, m)) != want:
+                    probs.append("%s.%s: type %s, expected %s (subschema equal to the conversion schema modulo annotations)" % (i, m, got.get((i, m)), want))
+        # generic differential: every member type equals its type under default settings with the substitutions these settings imply
+        if base_fts and c["features"]:
+            ren = {}
+            if "patch" in F:
+                ren["Tgt"] = "Renamed"
+            if "patch_inline" in F:
+                ren.update({"InlineMode": "RunMode", "InlineLabel": "Tag"})
+            back = {v: k for k, v in ren.items()}
+
+            def subst(bt):
+                if "replace" in F:
+                    bt = re.sub(r"\bTgt\b", REPL, bt)
+                for o, n in ren.items():
+                    bt = re.sub(r"\b%s\b" % o, n, bt)
+                return bt.replace("::std::collections::HashMap", mp)
+            for (i, m, t) in fts:
+                if (i, m) in conv_sites and F & {"convert", "convert_annot"}:
+                    continue
+                bt = base_fts.get((back.get(i, i), m))
+                if bt is None:
+                    continue
+                if t != subst(bt):
+                    probs.append("%s.%s: type %s, expected %s (default-settings type with the settings' substitutions)" % (i, m, t, subst(bt)))
         if "patch" in F:
             if "Renamed" not in items:
                 probs.append("patched type does not appear as Renamed")
